@@ -10,3 +10,11 @@ for _fn, _site in (("write_pack_index_v2", 'f_writer.write(struct.pack(b">L", of
     _c = REGISTRY[(P, _fn)]
     _c.prop = sorted(set(_c.prop) | {"C02"})
     _c.options = dict(_c.options, asserts=list(_c.options.get("asserts", [])) + [("inline-offset-has-top-bit-clear", _site, ["offset < 2 ** 31"])])
+
+# ---- C08: the read-modify-write of packed-refs happens under packed-refs.lock: the table that is modified and written back is
+#      (re)read while the lock on that very file is held (a table read before the lock loses a concurrent delete / create)
+import contracts.c08_refs  # noqa: F401,E402
+R = "dulwich/refs.py"
+for _fn, _pathvar in (("DiskRefsContainer._add_packed_refs", "path"), ("DiskRefsContainer._remove_packed_ref", "filename")):
+    _c = REGISTRY[(R, _fn)]
+    _c.options = dict(_c.options, asserts=list(_c.options.get("asserts", [])) + [("table-read-under-packed-refs-lock", "=packed_refs = self.get_packed_refs().copy()", [f"holds_lock({_pathvar})"])])
